@@ -66,8 +66,18 @@ func (ex *Exec) switchTo(t *thread) {
 		t.yield = make(chan thrEvt)
 		go t.main(ex)
 	}
+	if ex.explore {
+		ex.notes = append(ex.notes, "schedule: run goroutine #"+itoa(t.id))
+	}
 	t.resume <- true
 	ev := <-t.yield
+	if ex.explore && ev.kind == 1 {
+		why := "preempted"
+		if t.ready != nil {
+			why = "blocked"
+		}
+		ex.notes = append(ex.notes, "schedule: goroutine #"+itoa(t.id)+" "+why+" at "+ex.whereShort())
+	}
 	t.stack, t.panics = ex.stack, ex.panics
 	ex.stack, ex.panics = savedStack, savedPanics
 	ex.cur = nil
@@ -160,7 +170,7 @@ func (ex *Exec) schedule(mainReady func() bool) bool {
 				n++
 			}
 			if n > 1 {
-				pick = ex.Choose(n)
+				pick = ex.chooseSched(n)
 			}
 			if pick == len(r) {
 				return true // continue main
@@ -197,7 +207,7 @@ func (ex *Exec) preemptPoint() {
 	if others == 0 {
 		return
 	}
-	if ex.Choose(2) == 0 {
+	if ex.chooseSched(2) == 0 {
 		return
 	}
 	ex.preemptLeft--
@@ -207,4 +217,40 @@ func (ex *Exec) preemptPoint() {
 	}
 	// main preempted: run others; the scheduler decides when main continues
 	ex.schedule(func() bool { return true })
+}
+
+func (ex *Exec) whereShort() string {
+	w := ex.where()
+	if i := indexStr(w, " <- "); i >= 0 {
+		j := indexStr(w[i+4:], " <- ")
+		if j >= 0 {
+			return w[:i+4+j]
+		}
+	}
+	return w
+}
+
+func indexStr(s, sub string) int {
+	for i := 0; i+len(sub) <= len(s); i++ {
+		if s[i:i+len(sub)] == sub {
+			return i
+		}
+	}
+	return -1
+}
+
+// chooseSched makes one scheduling decision. The decision is a symbolic input ("sched#k", constrained
+// to the number of options) that the solver enumerates, so a counterexample's model carries the
+// schedule and a replay file pins it.
+func (ex *Exec) chooseSched(n int) int {
+	ex.schedSeq++
+	v := ex.input("sched#"+itoa(ex.schedSeq), 8)
+	if !v.IsConst() {
+		ex.assume(ex.ctx.ULT(v, ex.ctx.BV(8, uint64(n))))
+	}
+	k := int(ex.Concretize(v, n+1))
+	if k >= n {
+		k = n - 1
+	}
+	return k
 }
